@@ -115,7 +115,7 @@ def build_domain(d):
     return Domain([Range(lo, hi) for lo, hi in d["ranges"]], list(d["elems"]))
 
 
-def build_feature(f, parent=None, via_set=False):
+def build_feature(f, parent=None, via_set=False, fill=False):
     from flamapy.metamodels.fm_metamodel.models import Feature, Relation, Attribute
     from flamapy.metamodels.fm_metamodel.models.feature_model import FeatureType, Cardinality
     if (f["cmin"], f["cmax"]) == (1, 1):
@@ -132,8 +132,18 @@ def build_feature(f, parent=None, via_set=False):
     else:
         for attr in attrs:
             feat.add_attribute(attr)
+    if fill:
+        # every relation is attached while it is still empty, then filled (the children are given their parent by the
+        # constructor): the other public way to the same objects
+        rels = [Relation(feat, [], r["min"], r["max"]) for r in f["rels"]]
+        for rel in rels:
+            feat.add_relation(rel)
+        for rel, r in zip(rels, f["rels"]):
+            for c in r["children"]:
+                rel.add_child(build_feature(c, feat, via_set, fill))
+        return feat
     for r in f["rels"]:
-        children = [build_feature(c, feat, via_set) for c in r["children"]]
+        children = [build_feature(c, feat, via_set, fill) for c in r["children"]]
         feat.add_relation(Relation(feat, children, r["min"], r["max"]))
     return feat
 
@@ -143,10 +153,10 @@ def _copy(v):
     return copy.deepcopy(v)
 
 
-def build_fm_plain(m, via_set=False):
+def build_fm_plain(m, via_set=False, fill=False):
     from flamapy.metamodels.fm_metamodel.models import FeatureModel, Constraint
     from flamapy.core.models.ast import AST
-    root = build_feature(m["root"], None, via_set)
+    root = build_feature(m["root"], None, via_set, fill)
     ctcs = [Constraint(n, AST(build_node(a))) for n, a in m["ctcs"]]
     return FeatureModel(root, ctcs)
 
@@ -163,6 +173,8 @@ def build_fm(m, mode=None):
         return live.build_history(m, h, lambda s: build_fm_plain(s, True))
     if mode == live.DETOUR:
         return live.build_detour(m, h, lambda s: build_fm_plain(s, True))
+    if mode == live.FILL:
+        return build_fm_plain(m, False, True)
     return build_fm_plain(m)
 
 
